@@ -8,6 +8,7 @@ Nothing is sampled; the enumeration order is fixed; VERIF_SEED is recorded only.
 import os, sys, json, time, hashlib, types, copy, traceback, collections, itertools
 import multiprocessing as mp
 
+sys.set_int_max_str_digits(0)      # observations may be very large ints (32 KiB vectors)
 VERIF = os.path.dirname(os.path.dirname(os.path.abspath(__file__)))
 TREE = os.environ.get('CRYSP_TREE', '/repo')
 GUARD = 'BDCHT_CRYSP_VERIF'
